@@ -67,6 +67,7 @@ def run(ctx):
     ctx.add_tlc(res, f"Dim0Pieces partition: params<={p} order<={o} numel<={n} shard ranks<={k}")
     if not res.ok:
         raise tlc.TLCMachineryError(f"Dim0Pieces fails Dim0ExactlyOnce: {res.violated}\n{res.stdout[-1500:]}")
+    C07.mesh_mc(ctx, quick)
     for W, GS, owner, ns in [(2, 2, [0, 1, 0], 3)] + ([] if quick else [(2, 1, [0, 0, 0], 3), (4, 2, [0, 1, 0, 1], 2)]):
         r = C06.mc_dist(W, GS, owner, ns, (), ("SerialEquivalence", "ReplicaAgreement", "OwnerUnique"), ("NoRankLeftWaiting",))
         ctx.add_tlc(r, f"ShampooDist (one replicate column) R={W} GS={GS}")
